@@ -2,6 +2,7 @@
 package c06
 
 import (
+	"bytes"
 	"context"
 	"encoding/xml"
 	"errors"
@@ -128,9 +129,13 @@ type tcase struct {
 	component bool
 	// requesters close the responses they are done with a second time later on
 	closeAgain bool
-	layered    bool
-	reqs       []*request
-	ord        []int // order in which the peer deals with the requests
+	// scenario "late", IQ requests: while the late reply is in the handler the
+	// application asks again under the same id; the reply to that second
+	// request belongs to its caller
+	retryLate bool
+	layered   bool
+	reqs      []*request
+	ord       []int // order in which the peer deals with the requests
 	// at the end: the application closes the output, a request of this kind
 	// ("" none) then fails to be sent, and a reply with its id arrives
 	tailSendFails string
@@ -187,6 +192,7 @@ func genCase(t *rapid.T) tcase {
 		tc.reqs = append(tc.reqs, r)
 	}
 	tc.closeAgain = rapid.Bool().Draw(t, "closeAgain")
+	tc.retryLate = rapid.Bool().Draw(t, "retryLate")
 	tc.ord = rapid.Permutation(seq(n)).Draw(t, "order")
 	if rapid.IntRange(0, 2).Draw(t, "tail") == 0 {
 		tc.tailSendFails = rapid.SampledFrom([]string{"iq", "message", "presence"}).Draw(t, "tailKind")
@@ -207,7 +213,7 @@ func seq(n int) []int {
 
 func (tc tcase) String() string {
 	var sb strings.Builder
-	fmt.Fprintf(&sb, "second-close-of-finished-responses=%v component-namespace=%v s2s=%v session=%q layered=%v answer-order=%v then-Close-and-a-failing-%q-request=%v", tc.closeAgain, tc.component, tc.s2s, tc.negotiated, tc.layered, tc.ord, tc.tailSendFails, tc.tailSendFails != "")
+	fmt.Fprintf(&sb, "retry-under-the-same-id-while-a-late-reply-is-handled=%v second-close-of-finished-responses=%v component-namespace=%v s2s=%v session=%q layered=%v answer-order=%v then-Close-and-a-failing-%q-request=%v", tc.retryLate, tc.closeAgain, tc.component, tc.s2s, tc.negotiated, tc.layered, tc.ord, tc.tailSendFails, tc.tailSendFails != "")
 	for _, r := range tc.reqs {
 		fmt.Fprintf(&sb, "\n  req %s: %s scenario=%s reply=%s read=%s hold=%v context-ends-while-held=%v early=%v ns=%q", r.id(), r.entry, r.scen, r.reply, r.read, r.hold, r.cancelHeld, r.early, r.nsForm)
 	}
@@ -390,6 +396,8 @@ type handlerLog struct {
 	all  []string
 	// answerPings: see HandleXMPP
 	answerPings bool
+	// hooks: run (once) inside the handler when an element with that id arrives
+	hooks map[string]func()
 }
 
 func (h *handlerLog) HandleXMPP(t xmlstream.TokenReadEncoder, start *xml.StartElement) error {
@@ -404,7 +412,17 @@ func (h *handlerLog) HandleXMPP(t xmlstream.TokenReadEncoder, start *xml.StartEl
 		h.seen[n]++
 	}
 	h.all = append(h.all, fmt.Sprintf("%s n=%s", start.Name.Local, n))
+	var hook func()
+	for _, a := range start.Attr {
+		if a.Name.Local == "id" && a.Name.Space == "" && h.hooks != nil {
+			hook = h.hooks[a.Value]
+			delete(h.hooks, a.Value)
+		}
+	}
 	h.mu.Unlock()
+	if hook != nil {
+		hook()
+	}
 	if h.answerPings {
 		// component sessions: the library's automatic reply is reserved to the
 		// client and server namespaces, the application answers the harness's
@@ -711,6 +729,73 @@ func check(t interface {
 				stall(fmt.Sprintf("req %s did not return after its context was cancelled", r.id()))
 				cleanup()
 				return
+			}
+			if tc.retryLate && r.kind == "iq" && !tc.component {
+				// while the handler has the late reply the application asks again
+				// under the same id (a retry); it is registered and on the wire
+				// before the handler returns
+				type rres struct {
+					resp bool
+					err  error
+					p    string
+				}
+				rdone := make(chan rres, 1)
+				rctx, rcancel := context.WithCancel(context.Background())
+				rid := r.id()
+				before := bytes.Count(sv.Conn.Output(), []byte(`id="`+rid+`"`)) + bytes.Count(sv.Conn.Output(), []byte(`id='`+rid+`'`))
+				hl.mu.Lock()
+				if hl.hooks == nil {
+					hl.hooks = map[string]func(){}
+				}
+				hl.hooks[rid] = func() {
+					go func() {
+						var rr rres
+						rr.p = ev.Guard(func() {
+							resp, err := sv.Session.SendIQ(rctx, xt.El("", "iq", []xml.Attr{xt.A("type", "get"), xt.A("id", rid)}, xt.El("urn:verif:c06", "retry", nil)).Reader())
+							rr.err = err
+							if resp != nil {
+								rr.resp = true
+								_ = resp.Close()
+							}
+						})
+						rdone <- rr
+					}()
+					sv.Conn.WaitOutput(func(b []byte) bool {
+						return bytes.Count(b, []byte(`id="`+rid+`"`))+bytes.Count(b, []byte(`id='`+rid+`'`)) > before && bytes.HasSuffix(bytes.TrimSpace(b), []byte("</iq>"))
+					}, 3*time.Second)
+				}
+				hl.mu.Unlock()
+				feed(r.kind, replyType(r), r.id(), r.k, "handler")
+				if !sync() {
+					rcancel()
+					stall("the serve loop did not get past a late reply during whose handling the application asked again under the same id")
+					cleanup()
+					return
+				}
+				// the answer to the retry
+				sv.Feed(`<iq xmlns="` + ns + `" type="result" id="` + rid + `"><q xmlns="urn:verif:c06" n="retry"/></iq>`)
+				select {
+				case rr := <-rdone:
+					if rr.p != "" {
+						fail("retry of req %s panicked: %s", rid, rr.p)
+					}
+					if !rr.resp {
+						fail("req %s was given up, its late reply went to the handler; while the handler had it the application asked again under the same id; the reply to THAT request did not reach its caller (err=%v)", rid, rr.err)
+					}
+					ev.Class("retry-under-the-same-id-answered")
+				case <-time.After(waitLong):
+					rcancel()
+					select {
+					case rr := <-rdone:
+						fail("req %s was given up, its late reply went to the handler; while the handler had it the application asked again under the same id; the reply to THAT request never reached its caller (it returned %v only when its context was cancelled)", rid, rr.err)
+					case <-time.After(waitLong):
+						stall("the retried request under id " + rid + " did not return")
+						cleanup()
+						return
+					}
+				}
+				rcancel()
+				continue
 			}
 			feed(r.kind, replyType(r), r.id(), r.k, "handler")
 		case "never":
